@@ -122,7 +122,7 @@ func defsRun(s *Summary, l defsLine) {
 	}
 	compared := 0
 	for oi, opts := range defsOptionSets() {
-		r := rux.New(opts...)
+		r := newRouter(opts...)
 		var pan any
 		func() {
 			defer func() { pan = recover() }()
